@@ -63,6 +63,11 @@ func Load(repo string, overlay map[string][]byte) (*Engine, error) {
 		Env: append(os.Environ(), "GOFLAGS=-mod=mod", "GOPROXY=off", "GOSUMDB=off",
 			"GOTOOLCHAIN=local", "GOWORK=off"),
 	}
+	if len(overlay) > 0 || os.Getenv("FXCHECK_SRCDEPS") != "" {
+		// with edited sources, type-check the dependencies from source as well: `go list -export` would compile every
+		// package downstream of the edit into the build cache (hundreds of MB per edited variant)
+		cfg.Mode |= packages.NeedDeps
+	}
 	patterns := append([]string{"./..."}, depBodyPkgs...)
 	pkgs, err := packages.Load(cfg, patterns...)
 	if err != nil {
@@ -87,6 +92,7 @@ func Load(repo string, overlay map[string][]byte) (*Engine, error) {
 	e := &Engine{Repo: repo, Pkgs: pkgs, ByPath: map[string]*packages.Package{}, SSA: map[string]*ssa.Package{},
 		fnByKey: map[string]*ssa.Function{}, implCache: map[string][]*ssa.Function{}}
 	e.Fset = pkgs[0].Fset
+	flagEngine = e
 	prog, spkgs := ssautil.Packages(pkgs, ssa.InstantiateGenerics)
 	prog.Build()
 	e.Prog = prog
